@@ -98,7 +98,36 @@ fn sym_lookup(container: &V, s: u64) -> Option<Option<V>> {
             }
             Some(found)
         }
-        V::Slice(..) => Some(Some(V::Unknown)),
+        V::Slice(inner, range) => {
+            // the sliced positions are start..=end of the stored range; among the keyed pairs found there
+            // the one closest to the end wins (both slice arms of the runtime say so explicitly)
+            let (s0, e0) = match &**range {
+                V::Range(a, b) => match (&**a, &**b) {
+                    (V::Int(a), V::Int(b)) if *a >= 0 && *b >= *a => (*a as usize, *b as usize),
+                    _ => return Some(Some(V::Unknown)),
+                },
+                _ => return Some(Some(V::Unknown)),
+            };
+            let items: Vec<&V> = match &**inner {
+                V::List(xs) => xs.iter().collect(),
+                V::Concat(..) => inner.flat_items(),
+                // text, bytes and symbol lists hold no keyed pairs: no keyed lookup, like the unsliced value
+                V::CharList(_) | V::ByteList(_) | V::SymList(_) => return None,
+                _ => return Some(Some(V::Unknown)),
+            };
+            let mut found = None;
+            for (i, it) in items.iter().enumerate() {
+                if i < s0 || i > e0 {
+                    continue;
+                }
+                if let V::Pair(k, v) = it {
+                    if **k == V::Sym(s) {
+                        found = Some((**v).clone());
+                    }
+                }
+            }
+            Some(found)
+        }
         _ => None,
     }
 }
@@ -158,7 +187,24 @@ fn int_index(container: &V, idx: &V) -> V {
                 }
             }
         }
-        V::Range(..) | V::Slice(..) => V::Unknown,
+        V::Slice(inner, range) => {
+            // position start+i of the sliced value; only positions inside the slice are pinned
+            let (s0, e0) = match &**range {
+                V::Range(a, b) => match (&**a, &**b) {
+                    (V::Int(a), V::Int(b)) if *a >= 0 && *b >= *a => (*a as i64, *b as i64),
+                    _ => return V::Unknown,
+                },
+                _ => return V::Unknown,
+            };
+            if i < 0 || s0 + i > e0 || s0 + i > i32::MAX as i64 {
+                return V::Unknown;
+            }
+            match &**inner {
+                V::List(_) | V::CharList(_) | V::ByteList(_) | V::Concat(..) | V::SymList(_) => int_index(inner, &V::Int((s0 + i) as i32)),
+                _ => V::Unknown,
+            }
+        }
+        V::Range(..) => V::Unknown,
         _ => V::Unknown,
     }
 }
@@ -554,6 +600,12 @@ impl<'a, 'e> Ev<'a, 'e> {
                             (V::Sym(_) | V::SymList(_), V::Sym(_) | V::SymList(_)) => V::Unknown,
                             (V::Sym(_) | V::SymList(_), V::Int(_) | V::Float(_)) | (V::Int(_) | V::Float(_), V::Sym(_) | V::SymList(_)) => V::Unknown,
                             (V::Pair(..) | V::List(_) | V::CharList(_) | V::ByteList(_) | V::Concat(..), V::Int(_) | V::Float(_)) => int_index(&lv, &rv),
+                            (V::Slice(..), V::Int(_)) => int_index(&lv, &rv),
+                            (V::Slice(..), V::Sym(s)) => match sym_lookup(&lv, *s) {
+                                Some(Some(v)) => v,
+                                Some(None) => V::Unit,
+                                None => self.defer(),
+                            },
                             (V::Range(..) | V::Slice(..), _) => V::Unknown,
                             (V::Pair(..) | V::List(_) | V::Concat(..), V::Sym(s)) => match sym_lookup(&lv, *s) {
                                 Some(Some(v)) => v,
